@@ -34,6 +34,7 @@ PLAN = {
     'C09': {'gated': (['ctl', 'barrier'], 320, 6000), 'free': (['ctl'], 64, 1200), 'model': ['MC_core']},
     'C10': {'gated': (['cancel', 'batch'], 320, 6000), 'free': (['cancel'], 64, 1200), 'model': ['MC_core']},
     'C04': {'gated': (['basic', 'multi', 'barrier', 'cancel'], 320, 6000), 'free': (['basic'], 48, 800), 'model': []},
+    'C14': {'gated': (['life'], 200, 3000), 'free': (['life'], 48, 600), 'model': [], 'life_exhaustive': (3, 4)},
     'C15': {'gated': (['multi'], 400, 6000), 'free': (['multi'], 32, 600), 'model': []},
     'C16': {'gated': (['basic', 'handle', 'cancel', 'batch'], 320, 6000), 'free': (['basic', 'handle'], 96, 2400), 'model': ['MC_core']},
     'C17': {'gated': (['basic', 'multi', 'cancel', 'ctl'], 320, 6000), 'free': (['basic', 'multi'], 64, 1200), 'model': []},
@@ -50,6 +51,7 @@ MODEL_PLAN = {
     'C06': (['barrier', 'pause', 'purge'], ['stop2', 'pause2', 'was', 'cancel'], ['barrier', 'pause']),
     'C09': (['pause'], ['pause2', 'stop', 'restart', 'was'], []),
     'C10': (['cancel', 'purge', 'qclose'], ['cancel2'], []),
+    'C14': (['ctx0', 'pause'], ['ctx', 'stop', 'stop2', 'restart', 'was', 'pause2'], []),
     'C16': (['barrier', 'cancel'], ['conc2', 'purge', 'prio'], []),
     'C17': (['conc2', 'pause'], ['tune'], []),
     'C18': (['expiry', 'ctx0'], ['ratio', 'tune', 'stop', 'restart', 'ctx'], []),
@@ -229,6 +231,8 @@ def check_property(pid, tier, seed):
         fams, nq, nt = plan['gated']
         n = nq if tier == 'quick' else nt
         gated = progs.generate(fams, n, rng.randrange(1 << 30), prefix=pid + 'g')
+        if plan.get('life_exhaustive'):
+            gated += progs.life_exhaustive(plan['life_exhaustive'][0 if tier == 'quick' else 1], rng.randrange(1 << 30), pid + 'x')
         # ---- model checking (all interleavings of the small configurations) and TLC-generated schedules (M1)
         mres = run_models(pid, tier, scratch)
         cov['model_configs'] = mres
